@@ -247,3 +247,49 @@ def write_json(path, obj):
 
 def digest(obj):
     return hashlib.sha1(json.dumps(obj, sort_keys=True, default=str).encode()).hexdigest()[:12]
+
+
+# ----------------------------------------------------------------------------- solver choice
+class SkipCase(Exception):
+    """the case cannot be solved safely in this sandbox (not a verdict)"""
+
+
+def ecos_safe(formula):
+    """ECOS crashes (SIGSEGV) on all-zero equality rows; such programs are not given to it"""
+    import scipy.sparse as sp
+    L = sp.csr_matrix(formula.linear)
+    nnz_per_row = np.diff(L.indptr)
+    absmax = np.array([np.abs(L.data[L.indptr[i]:L.indptr[i + 1]]).max() if nnz_per_row[i] else 0.0
+                       for i in range(L.shape[0])])
+    zero_eq = (absmax == 0) & (np.asarray(formula.sense) == 1)
+    return not zero_eq.any()
+
+
+def pick_solver(formula):
+    """default HiGHS for LP/MILP, Gurobi (restricted licence) for SOCP, ECOS only where needed and safe"""
+    from rsome import eco_solver
+    has_q = bool(getattr(formula, 'qmat', None))
+    has_x = bool(getattr(formula, 'xmat', None))
+    if not has_q and not has_x:
+        return None
+    if has_q and not has_x and max(formula.linear.shape) < 1900:
+        try:
+            from rsome import grb_solver
+            return grb_solver
+        except Exception:
+            pass
+    if not ecos_safe(formula):
+        raise SkipCase('all-zero equality row: ECOS would crash')
+    return eco_solver
+
+
+def solve_model(m, solver='auto'):
+    """solve an ro/dro model quietly with a solver that is safe for its cone types"""
+    with quiet():
+        if solver == 'auto':
+            solver = pick_solver(m.do_math())
+        if solver is None:
+            m.solve(display=False)
+        else:
+            m.solve(solver, display=False)
+    return m.get()
